@@ -158,3 +158,129 @@ func TestC09Transport(t *testing.T) {
 	rec := evid.New("C09/transport")
 	pbt.Run(t, "C09", rec, genC09Transport, checkC09Transport)
 }
+
+// ---------- C09 over the real transport: a peer that is silent AND has stopped reading ----------
+//
+// The peer neither sends nor reads (a hung process behind an open socket). The
+// first Heartbeat blocks in the connection's Write; with the outgoing buffer the
+// application configured (4 or more messages here) the TestRequest and the
+// Heartbeats that follow are queued, the watchdog goes on, and two periods after
+// the last inbound message the library closes the connection. The write timeout
+// is far longer than that, so it is the watchdog that ends the connection, not
+// the failing write.
+
+type C09StalledCase struct {
+	Role string `json:"role"`
+	Buf  int    `json:"buf"`
+	N    int    `json:"n"`
+	Warm []int  `json:"warm"` // kinds of the messages the peer sends (and reads the answers of) before it hangs
+}
+
+func genC09Stalled(t *rapid.T) *C09StalledCase {
+	c := &C09StalledCase{Role: rapid.SampledFrom([]string{"acceptor", "acceptor", "initiator"}).Draw(t, "role"), Buf: rapid.SampledFrom([]int{4, 10, 100}).Draw(t, "buf"),
+		N: rapid.SampledFrom([]int{2, 3, 5, 10, 30}).Draw(t, "n")}
+	for i := rapid.IntRange(0, 3).Draw(t, "warm"); i > 0; i-- {
+		c.Warm = append(c.Warm, rapid.IntRange(0, 1).Draw(t, "warmKind"))
+	}
+	return c
+}
+
+func checkC09Stalled(c *C09StalledCase, rec *evid.Rec) (vs []pbt.Violation) {
+	done := pbt.Watch("C09", "TestC09Stalled", c)
+	defer done()
+	tol := max(1, c.N/20)
+	T := time.Duration(c.N+tol) * time.Second
+	slack := T/10 + time.Millisecond
+	closedAt := time.Duration(-1)
+	var lastIn time.Duration
+	var stream []byte
+	_, trouble := rig.Bubble(outerT, func() {
+		store := memory.NewStorage()
+		cfg := rig.Cfg{Role: c.Role, HBMin: 1, HBMax: 60, HBInt: c.N, Methods: []string{"0"}, Approve: "all", CloseTimeoutMs: 100, Buf: c.Buf,
+			Sender: "LIB", Target: "PEER", User: "alice", Pass: "secret"}
+		wd := 20 * T
+		var conn *netsim.Conn
+		var ar *rig.AcceptorRig
+		var ir *rig.InitiatorRig
+		if c.Role == "acceptor" {
+			ar = rig.StartAcceptor(c.Buf, wd, func(h simplefixgo.AcceptorHandler) {
+				if _, err := rig.AcceptorSession(cfg, h, store, store); err != nil {
+					panic(err)
+				}
+			})
+			conn = netsim.NewConn("c")
+			ar.L.Connect(conn)
+		} else {
+			ir = rig.NewInitiatorRig(c.Buf, wd)
+			conn = ir.C
+			ir.Serve()
+			if _, err := rig.InitiatorSession(cfg, ir.H, store, store); err != nil {
+				panic(err)
+			}
+		}
+		synctest.Wait()
+		t0 := time.Now()
+		seq := 1
+		conn.Feed((&rig.InMsg{Type: rig.TLogon, Seq: "1", Fields: []rig.Tok{rig.F(rig.TagEncryptMethod, "0"), rig.F(rig.TagHeartBtInt, fmt.Sprint(c.N)),
+			rig.F(rig.TagUsername, "alice"), rig.F(rig.TagPassword, "secret")}}).Bytes())
+		synctest.Wait()
+		for i, k := range c.Warm {
+			time.Sleep(time.Duration(c.N) * time.Second / 2)
+			seq++
+			if k == 0 {
+				conn.Feed((&rig.InMsg{Type: rig.THeartbeat, Seq: fmt.Sprint(seq)}).Bytes())
+			} else {
+				conn.Feed((&rig.InMsg{Type: rig.TTestRequest, Seq: fmt.Sprint(seq), Fields: []rig.Tok{rig.F(rig.TagTestReqID, fmt.Sprint("w", i))}}).Bytes())
+			}
+			synctest.Wait()
+		}
+		lastIn = time.Since(t0)
+		conn.Stall(true) // from now on the peer neither sends nor reads
+		for step := 0; step < 400 && closedAt < 0; step++ {
+			time.Sleep(T / 100)
+			synctest.Wait()
+			if cl, at := conn.IsClosed(); cl {
+				closedAt = at.Sub(t0)
+			}
+			if time.Since(t0) > lastIn+3*T {
+				break
+			}
+		}
+		stream = conn.Stream()
+		conn.Stall(false)
+		conn.PeerClose()
+		synctest.Wait()
+		if ar != nil {
+			ar.A.Close()
+		} else {
+			ir.I.Close()
+			ir.H.Stop()
+		}
+		time.Sleep(rig.Settle(c.N))
+	})
+	if trouble != "" {
+		return []pbt.Violation{pbt.V("harness", "%s", trouble)}
+	}
+	desc := fmt.Sprintf("%s, N=%ds (T=%v), outgoing buffer %d, the peer stops reading and sending %v after the connection was opened", c.Role, c.N, T, c.Buf, lastIn)
+	lo, hi := lastIn+2*T, lastIn+2*T+2*slack
+	switch {
+	case closedAt < 0:
+		vs = append(vs, pbt.V("stalled:not-disconnected", "%s: the connection is still open %v later; it must be closed two periods after the last inbound message, i.e. in [%v,%v]", desc, 3*T, lo, hi))
+	case closedAt < lo || closedAt > hi:
+		vs = append(vs, pbt.V("stalled:disconnect-time", "%s: the connection was closed at %v, required in [%v,%v]", desc, closedAt, lo, hi))
+	}
+	_ = stream
+	rec.Case(evid.FPs(fmt.Sprint(c.Role, c.Buf, c.N, c.Warm)), true)
+	rec.Hist("stalled:role:" + c.Role)
+	rec.Hist(fmt.Sprintf("stalled:buf=%d", c.Buf))
+	if rec.WantSample() {
+		rec.Sample(map[string]any{"engine": "silent peer that does not read", "role": c.Role, "N": c.N, "buffer": c.Buf, "closed_at": closedAt.String(), "required": fmt.Sprintf("[%v,%v]", lo, hi)})
+	}
+	return vs
+}
+
+func TestC09Stalled(t *testing.T) {
+	outerT = t
+	rec := evid.New("C09/stalled")
+	pbt.Run(t, "C09", rec, genC09Stalled, checkC09Stalled)
+}
